@@ -321,11 +321,39 @@ def p_bundle( ctx ):
             res.ok( src, sn.stmt, 'a flushed bundle is followed by index += 1' )
         else:
             res.bad( src, sn.stmt, sn.stmt, 'after sending a bundle the index must advance before the next request is issued' )
-    # the context used for the bundle and yielded with each member is the loop's sender_context = index_to_sender_context( index )
-    if pfind( fn, 'sender_context = self.index_to_sender_context( index )' ):
-        res.ok( src, fn, 'sender_context is always derived from index' )
+    # the context used for the bundle and yielded with each member is the loop's sender_context = index_to_sender_context( index ):
+    # after every advance of index the context is recomputed before the next operation is issued
+    recomp = [ n for n in cfg.nodes if n.kind == 'stmt' and n.stmt is not None and pmatch( n.stmt, 'sender_context = self.index_to_sender_context( index )' ) ]
+    if recomp:
+        res.ok( src, recomp[0].stmt, 'sender_context is derived from index' )
+        for inc in [ n for n in incs if src.enclosing( n.stmt, ( ast.For, )) is loop[0] ]:
+            if cfg.must_pass( inc, h, [ r for r in recomp if r is not inc ], correlated=False ):
+                res.ok( src, inc.stmt, 'after index += 1 the sender context is recomputed before the next operation' )
+            else:
+                res.bad( src, inc.stmt, 'index += 1 without recomputing sender_context on some path', 'the next wire request would carry the previous request\'s sender context: after a lost reply, later replies are paired with the wrong requests without any mismatch being detected' )
     else:
         res.bad( src, fn, 'sender_context', 'the sender context must be derived from the request index' )
+    # the bundle's paths are recorded whenever an operation is queued: after every reset of requests_paths, both keys are set (again)
+    # before the next iteration, on every path that queues the operation
+    appends = [ n for n in cfg.nodes if n.kind == 'stmt' and n.stmt is not None and pfind( n.stmt, 'requests.append( _x )' ) ]
+    resets = [ n for n in cfg.nodes if n.kind == 'stmt' and n.stmt is not None and pmatch( n.stmt, 'requests_paths = {}' ) and src.enclosing( n.stmt, ( ast.For, )) is loop[0] ]
+    for key in ( 'route_path', 'send_path' ):
+        sets = [ n for n in cfg.nodes if n.own() is not None and any(
+            is_call_to( c, 'requests_paths.setdefault' ) and c.args and try_fold( c.args[0] ) == key for c in ast.walk( n.own() ) if isinstance( c, ast.Call )) ]
+        bad = False
+        for r in resets:
+            for a in appends:
+                ra = cfg.reachable( r, avoid=set( sets ), edge_ok=lambda x, y, l: y is not h )
+                if a in ra:
+                    ab = cfg.reachable( a, avoid=set( sets ), edge_ok=lambda x, y, l: True, stop=[ h ] )
+                    if h in ab:
+                        bad = True
+                        res.bad( src, a.stmt, 'operation queued after requests_paths = {} without recording its %s' % key,
+                                 'the next operation compares its %s only with itself and joins the bundle: operations with different route/send paths are mixed in one Multiple Service Packet' % key )
+        if not bad and resets and appends and sets:
+            res.ok( src, appends[0].stmt, 'a queued operation always (re)records the bundle\'s %s' % key )
+        elif not sets:
+            res.bad( src, fn, 'requests_paths %s' % key, 'the bundle never records its %s' % key )
     for y in [ y for y in ast.walk( fn ) if isinstance( y, ast.Yield ) ]:
         if isinstance( y.value, ast.Tuple ) and [ dotted( e ) for e in y.value.elts[:2] ] == [ 'index', 'sender_context' ]:
             res.ok( src, y, 'yields ( index, sender_context, ... )', nontrivial=False )
